@@ -311,3 +311,9 @@ mod test_cli {
 pub mod verif_hooks {
   pub use crate::print::verif_hooks::*;
 }
+
+/// verification hooks of the interactive printer (accept-all filter, splice, update-all)
+#[cfg(feature = "verif-hooks")]
+pub mod verif_hooks_interactive {
+  pub use crate::print::verif_hooks_interactive::*;
+}
